@@ -91,6 +91,12 @@ def cases(tier, seed):
                                 out.append({"key": f"stop/damped/{base}/tol={tol}", "solver": "damped", "m": m, "n": n, "comp": list(comp), "how": how, "kind": kind, "gamma": 1.0, "cr": True, "sparse": False, "mode": "stop", "tol": tol})
                                 out.append({"key": f"stop/damped-cov/{base}/tol={tol}", "solver": "damped", "m": m, "n": n, "comp": list(comp), "how": how, "kind": kind, "gamma": 1.0, "cr": False, "sparse": False, "mode": "stop", "tol": tol})
                                 out.append({"key": f"stop/third/{base}/tol={tol}", "solver": "third", "m": m, "n": n, "comp": list(comp), "how": how, "kind": kind, "gamma": None, "cr": True, "sparse": False, "mode": "stop", "tol": tol})
+    # damping values next to the special value 1 (1 - 2^-20, 1 - 1e-6, 0.99999, 0.9999) and tiny ones: the recurrence must use the given gamma
+    for m, n in ((2, 2), (3, 2), (2, 3), (3, 3)):
+        p = min(m, n)
+        for gi, g in enumerate((1.0 - 2.0 ** -20, 1.0 - 1e-6, 0.99999, 0.9999, 2.0 ** -10, 0.5 + 2.0 ** -30)):
+            for cr in (True, False):
+                out.append({"key": f"gamma/{m}x{n}/g{gi}/res={int(cr)}", "solver": "damped", "m": m, "n": n, "comp": [1] * p, "how": "head", "kind": "hh", "gamma": g, "cr": cr, "sparse": False, "mode": "traj"})
     # long trajectories on full-rank inputs with a wide singular-value range (sigma_min / sigma_max = 2^-27): the small direction
     # only starts to move after ~50 damped / ~30 third-order steps, long after the large ones have converged and the
     # residuals sit on their rounding floor
